@@ -1535,6 +1535,11 @@ class Evaluator:
         if isinstance(op, ast.BitOr):
             return self._bool("or", [a, b])
         name = type(op).__name__
+        if name in ("Mod", "FloorDiv"):
+            ka, kb = a.const(), b.const()
+            if ka is not None and kb is not None and ka.denominator == 1 and kb.denominator == 1 and kb != 0:
+                # integer literals: (i + 1) % 3 for i = 1 is 2
+                return c.const(int(ka) % int(kb) if name == "Mod" else int(ka) // int(kb))
         return c.mk(("binop", name), (a, b))
 
     def _not(self, x):
